@@ -5,7 +5,8 @@
 (* acl   : name -> Seq([n, ace])   entries in ascending sequence number n  *)
 (* intf  : name -> [vrf, in, out]  in/out = bound ACL name or ""           *)
 (* route : set of [vrf, dst, gw]                                           *)
-(* cmap  : "NAME SEQ" -> [name, seq, peers, fin, fout]  crypto map entries   *)
+(* cmap  : "NAME SEQ" -> [name, seq, typ, peers, fin, fout]  crypto map       *)
+(*         entries; typ = "ipsec-isakmp" | "gdoi"                           *)
 (*         peers = set of peer addresses, fin/fout = filter ACL name or ""  *)
 (* ifcm  : interface -> name of the crypto map bound to it or ""           *)
 (* mode  : [k, v]  k in {"", "acl", "if", "cm"}                            *)
@@ -154,9 +155,9 @@ RouteDel(r) ==
 
 (* crypto map NAME SEQ ipsec-isakmp : opens the sub-mode; an unknown entry is created *)
 (* incomplete (no peer, no filter)                                                   *)
-CmEnter(k, name, seq) ==
+CmEnter(k, name, seq, typ) ==
   /\ cmap' = IF k \in DOMAIN cmap THEN cmap
-             ELSE Put(cmap, k, [name |-> name, seq |-> seq, peers |-> {}, fin |-> "", fout |-> ""])
+             ELSE Put(cmap, k, [name |-> name, seq |-> seq, typ |-> typ, peers |-> {}, fin |-> "", fout |-> ""])
   /\ mode' = [k |-> "cm", v |-> k]
   /\ UNCHANGED <<acl, intf, route, ifcm, err>>
 
